@@ -103,8 +103,27 @@ def sub(a, b):
     return a - b
 
 
+def _const_ite(e):
+    """e is an if-then-else tree with numeral leaves"""
+    if z3.is_int_value(e) or z3.is_rational_value(e):
+        return True
+    return z3.is_app(e) and e.decl().kind() == z3.Z3_OP_ITE and _const_ite(e.arg(1)) and _const_ite(e.arg(2))
+
+
+def _distribute(x, ite):
+    if z3.is_int_value(ite) or z3.is_rational_value(ite):
+        return x * ite
+    return z3.If(ite.arg(0), _distribute(x, ite.arg(1)), _distribute(x, ite.arg(2)))
+
+
 def mul(a, b):
     a, b, _ = _coerce2(a, b)
+    if is_sym(a) and is_sym(b):
+        # x * (c ? -1 : 1) stays linear: push the product into the branches
+        if _const_ite(b) and not (z3.is_int_value(b) or z3.is_rational_value(b)):
+            return _distribute(a, b)
+        if _const_ite(a) and not (z3.is_int_value(a) or z3.is_rational_value(a)):
+            return _distribute(b, a)
     return a * b
 
 
